@@ -171,6 +171,8 @@ def check(case, mon, ctx):
                       'config': {'poly': old_eng.poly, 'line_height': old_eng.line_height, 'scale': old_eng.scale}, 'configured': {'poly': poly, 'line_height': H, 'scale': scale}})
     del ctx.swallowed[:]
     mon.count('crops')
+    import hashlib as _hl
+    mon.observe('crop', [list(crop.shape), _hl.sha1(np.ascontiguousarray(crop).tobytes()).hexdigest()[:16]])
     if crop.shape[0] != H or crop.ndim != 3 or crop.shape[2] != 3:
         mon.violation('configured-height', {'shape': list(crop.shape), 'H': H})
     if cls == 'degenerate':
